@@ -78,6 +78,47 @@ def pick_op(case, tape):
         case.variables = gen_variables(case.schema, tape, op, stream="vars_mut")
 
 
+def via_subscribe(engine, case, plan, tape, out0):
+    """The same mutation handed to `subscribe()`.  Whatever the engine does with it (refuse, raise, or answer it),
+    IF it executes the mutation its root fields run serially like anywhere else."""
+    import asyncio
+    import copy
+    from simv.actors import ReqCtx, Runtime
+    from simv.harness import Out
+    from simv.simloop import SimDeadlock, SimLoop, SimStepCap, run_sim
+    if plan.refused or plan.op is None or plan.op.op != "mutation" or not tape.sub("viasub").chance(30):
+        return []
+    loop = SimLoop(tape.sub("viasub_sched"), "random", 30, "gate")
+    rt = Runtime(0, loop, plan)
+    rt.engine_cfg = getattr(engine, "_simv_cfg", None) or {}
+    loop.default_rt = rt
+    got = []
+
+    async def main():
+        try:
+            async for r in engine.subscribe(case.text, operation_name=case.op_name, context=ReqCtx(rt),
+                                            variables=copy.deepcopy(case.variables), initial_value=plan.root_value):
+                got.append(r)
+        except Exception as e:  # noqa: BLE001 -- refusing by raising is the pristine behaviour
+            got.append(("raised", type(e).__name__))
+
+    try:
+        run_sim(loop, main())
+    except (SimDeadlock, SimStepCap) as e:
+        return [V("no_termination", "the mutation handed to subscribe() did not terminate: %r" % (e,))]
+    o = Out()
+    o.events = loop.events
+    vs = order_check(case, plan, o)
+    for v in vs:
+        v["detail"] = "[mutation executed through subscribe()] " + v["detail"]
+    out0.c09_via_subscribe = 1 + int(any(ev[1] == "start" for ev in loop.events))
+    return vs
+
+
+def post_checks(engine, case, plan, tape, out0):
+    return dfs_orders(engine, case, plan, tape, out0) + via_subscribe(engine, case, plan, tape, out0)
+
+
 def dfs_orders(engine, case, plan, tape, out0):
     """Small mutations: enumerate ALL completion orders of the suspended resolvers (DFS over the
     scheduler's release decisions) and check the serial-order invariant and the response on each."""
@@ -117,7 +158,7 @@ def run_one(seed, preset=None, tier="quick", want_case=False):
         return {"op_kinds": ("mutation",), "max_ops": t.choose([1, 1, 2]), "max_depth": 3, "max_sel": t.choose([5, 5, 8])}
 
     r = run_single(ID, seed, preset, want_case, schema_knobs=schema_knobs, doc_knobs=doc_knobs,
-                   faults_fn=faults_fn, extra_check=order_check, doc_post=doc_post, pick_op=pick_op, post_engine=dfs_orders)
+                   faults_fn=faults_fn, extra_check=order_check, doc_post=doc_post, pick_op=pick_op, post_engine=post_checks)
     if r.get("early"):
         return strip_private(r)
     plan, out = r["_plan"], r["_out"]
@@ -135,5 +176,6 @@ def run_one(seed, preset=None, tier="quick", want_case=False):
         "root_field_failed_nullable": int(any(e.nulls == e.path for e in root_fail)),
         "root_field_failed_nonnull_data_null": int(any(e.nulls == ("<root>",) for e in root_fail)),
         "roots_ge_3": int(getattr(out, "c09_roots", 0) >= 3),
+        "mutation_handed_to_subscribe": int(getattr(out, "c09_via_subscribe", 0) >= 1),
     })
     return strip_private(r)
